@@ -26,7 +26,7 @@ class C01(common.Prop):
     RULE = ("structured poses over the C01 space (1..4 components, 0..k points, names from all four UTF-8 length classes, "
             "limbs/colours, F,P incl. 0, D 1..4, float32 bit-pattern classes, float64 inputs) with ~25% carrying one "
             "unrepresentable/edge feature; each case is written, and read back under three header-memo states; "
-            "non-trivial = write accepted by the implementation or rejected for a reason other than rank; distinct by content hash " "Header numbers as Python ints or NumPy integer arrays / scalars; limb and colour words with the top bit set; tiny non-zero confidences; header objects carrying version 0.0 / 0.1 / 0.3; body arrays plain / unmasked / partially masked / non-contiguous; four memo states (empty, same, other, version twin).")
+            "non-trivial = write accepted by the implementation or rejected for a reason other than rank; distinct by content hash " "Header numbers as Python ints or NumPy integer arrays / scalars; limb and colour words with the top bit set; tiny non-zero confidences; header objects carrying version 0.0 / 0.1 / 0.3; body arrays plain / unmasked / partially masked / non-contiguous; five memo states (empty, same, other, version twin, name-exchanged anagram header).")
     TRUSTED = ["Coq 8.16.1 kernel (UTF-8 round trip proved by case analysis + lia, no enumeration; vm_compute only in examples)", "harness/translate_py.py (fail-closed ast translator)",
                "extraction: ExtrOcamlBasic only; runner/driver.ml", "harness/posegen.py canonicalisers (NaN -> one word; errors -> one class)"]
     ASSUMPTIONS = ["CPython struct / bytes.decode / numpy astype(float32) behave as modelled in base/F32.v, base/Utf8.v (sampled by the correspondence)",
@@ -61,6 +61,15 @@ class C01(common.Prop):
                 r, _ = pg.impl_read(w[1])
                 out["reads"][st] = pg.strip_err(r)
                 case.setdefault("_impl_reads", {})[st] = r
+            # fifth state: the memo holds the header of this pose with two point names exchanged (same length, same bytes in
+            # another order); the file read next must still come back with ITS names
+            c2 = pg.anagram_case(case)
+            w2 = pg.impl_write(c2) if c2 is not None else None
+            if w2 is not None and w2[0] == "ok":
+                pg.set_memo("other", other_bytes=w2[1])
+                r, _ = pg.impl_read(w[1])
+                out["reads"]["anagram"] = pg.strip_err(r)
+                case["_impl_reads"]["anagram"] = r
         return out
 
     # ---- model
@@ -75,6 +84,12 @@ class C01(common.Prop):
                 rep = runner.ask([4, pre + [[0, f, pg.args_tree(None)]]])
                 last = rep[-1]
                 out["reads"][st] = pg.result_of_tree(last[0], pg.pose_of_tree)
+            c2 = pg.anagram_case(case)
+            if c2 is not None:
+                w2 = pg.result_of_tree(runner.ask([1, pg.wpose_tree(c2)]), lambda x: list(x))
+                if w2[0] == "ok":
+                    rep = runner.ask([4, [[0, w2[1], pg.args_tree(None)], [0, f, pg.args_tree(None)]]])
+                    out["reads"]["anagram"] = pg.result_of_tree(rep[-1][0], pg.pose_of_tree)
         return out
 
     def compare(self, case, impl_out, model_out):
